@@ -84,6 +84,9 @@ class Context:
         self.decisions = 0
         self.forced = None  # optional list of forced truth values (path exploration)
         self._aux_cache = {}
+        import os, random
+
+        self._rng = random.Random(int(os.environ.get("VERIF_SEED", "0") or 0) * 7919 + 17)
 
     # ---- variables
     def var(self, name, lo=None, hi=None, shadow=None, kind="input"):
@@ -94,7 +97,7 @@ class Context:
         self.dom[vid] = (lo, hi)
         if shadow is None:
             if lo is not None and hi is not None:
-                shadow = lo + (hi - lo) * Fraction(3, 7)
+                shadow = lo + (hi - lo) * Fraction(self._rng.randint(60, 940), 1009)
             elif lo is not None:
                 shadow = lo + 1
             elif hi is not None:
@@ -439,6 +442,49 @@ class Sym:
 
     def __round__(self, n=None):
         raise Concretised("round() of a symbolic value")
+
+    # numpy object loops look these up by name
+    def astype(self, *a, **k):
+        return self
+
+    def copy(self):
+        return self
+
+    def item(self):
+        return self
+
+    def _transc(self, name):
+        if self.is_const():
+            return getattr(math, {"arccos": "acos", "arcsin": "asin", "arctan": "atan"}.get(name, name))(float(self.const_value()))
+        if name == "exp":
+            return sym_exp(self)
+        if name == "log":
+            return sym_log(self)
+        raise OutOfReach(f"{name} of a symbolic value")
+
+    def cos(self):
+        return self._transc("cos")
+
+    def sin(self):
+        return self._transc("sin")
+
+    def tan(self):
+        return self._transc("tan")
+
+    def arccos(self):
+        return self._transc("arccos")
+
+    def arcsin(self):
+        return self._transc("arcsin")
+
+    def arctan(self):
+        return self._transc("arctan")
+
+    def exp(self):
+        return self._transc("exp")
+
+    def log(self):
+        return self._transc("log")
 
     # ------------------------------------------------------------------ calculus / evaluation
     def diff(self, var):
